@@ -17,8 +17,15 @@ from .core import HarnessError
 from .seam import Seam
 
 
+_MISSING = object()
+
+
 class Pause(Exception):
     """Raised by the harness at a leg boundary to stop Mediator.run()."""
+
+
+class ResumeNow(Exception):
+    """Raised by the harness at a leg boundary: dump the mediator (dill), restore it, continue on the restored one."""
 
 
 # ----------------------------------------------------------------------------------------------------------------------
@@ -92,7 +99,7 @@ class Policy:
         return alts[choice]
 
     def assert_all_hit(self):
-        missing = set(self.deviations) - self.hit
+        missing = set(k for k in self.deviations if k[0] != "resume") - self.hit
         if missing:
             raise HarnessError("replay divergence: the deviating draws %r were never reached" % (sorted(missing),))
 
@@ -213,6 +220,9 @@ class Execution:
         if "C04" in self.mon:
             install_bound_probe()
             del BOUND_RECORDS[:]
+        self._orig_attrs = {}
+        self.resume_at = set(k[1] for k in policy.deviations if k[0] == "resume")
+        self.resumed = 0
         self.ctx = None
         self.handler_draws = {}
         self._pending_answer = None
@@ -250,6 +260,8 @@ class Execution:
         ex = self
         for phase, name in (("time", "send_event_time"), ("out", "send_out_state")):
             real = getattr(h, name)
+            # some handlers bind these names as instance attributes themselves: remember what was there
+            self._orig_attrs[(id(h), name)] = h.__dict__.get(name, _MISSING)
 
             def call(*a, _real=real, _phase=phase, **k):
                 prev = ex.ctx
@@ -278,6 +290,9 @@ class Execution:
                 ex.pending[h] = [ex.tagger_of[h], None if ids is None else tuple(ids), ex.basis_for(ids), None]
 
         def wrapper(active_state, preceding):
+            if ex.legs + 1 in ex.resume_at and preceding is not None:
+                ex.resume_at.discard(ex.legs + 1)
+                raise ResumeNow()
             ex.legs += 1
             if ex.legs > ex.horizon:
                 raise Pause()
@@ -286,10 +301,11 @@ class Execution:
                 state["upd"] = act.__dict__.get("get_event_handlers_to_run", first)
                 act.get_event_handlers_to_run = wrapper
             else:
-                res = state["upd"](active_state, preceding)
+                res = state.get("upd", first)(active_state, preceding)
             on_created(res)
             return res
         act.get_event_handlers_to_run = wrapper
+        self._real_get = lambda: state.get("upd", first)
 
         real_trash = act.get_trashable_events
 
@@ -363,11 +379,56 @@ class Execution:
                     res[k] = v
         return res
 
+    def _roundtrip(self):
+        """Dump + restore the mediator (what DumpingOutputHandler / resume.py do) and move all harness state over."""
+        import dill
+        act, sch, sh, ioh = self.act, self.sch, self.sh, self.ioh
+        old_handlers = list(act.get_event_handlers())
+        old_taggers = list(act._taggers)
+        # take the harness wrappers off (instance attributes) so that the dump contains no harness object
+        act.get_event_handlers_to_run = self._real_get()
+        for obj, names in ((act, ("get_trashable_events",)), (sch, ("push_event", "get_succeeding_event")),
+                           (sh, ("insert_into_global_state",)), (ioh, ("write",))):
+            for n in names:
+                obj.__dict__.pop(n, None)
+        for h in old_handlers:
+            for n in ("send_event_time", "send_out_state"):
+                orig = self._orig_attrs.get((id(h), n), _MISSING)
+                if orig is _MISSING:
+                    h.__dict__.pop(n, None)
+                else:
+                    h.__dict__[n] = orig
+        self._orig_attrs = {}
+        med = dill.loads(dill.dumps(self.med))
+        self.med = med
+        self.sh, self.act, self.sch, self.ioh = med._state_handler, med._activator, med._scheduler, \
+            med._input_output_handler
+        new_handlers = list(self.act.get_event_handlers())
+        hmap = {id(o): n for o, n in zip(old_handlers, new_handlers)}
+        tmap = {id(o): n for o, n in zip(old_taggers, self.act._taggers)}
+        self.tagger_of = self.act._event_handler_tagger_dictionary
+        self.start_handler = self.act._start_of_run_event_handler
+        self.pending = {hmap[id(h)]: [tmap.get(id(v[0]), v[0])] + list(v[1:]) for h, v in self.pending.items()}
+        self.candidate = {hmap[id(h)]: v for h, v in self.candidate.items()}
+        self.handler_draws = {hmap[id(h)]: v for h, v in self.handler_draws.items() if id(h) in hmap}
+        if self.current is not None and id(self.current) in hmap:
+            self.current = hmap[id(self.current)]
+        self._snap = None
+        if hasattr(self, "_hc"):
+            del self._hc
+        self.resumed += 1
+        self._install()
+
     def run(self):
         from jellyfysh.base.exceptions import EndOfRun
         try:
-            with contextlib.redirect_stdout(io.StringIO()):
-                self.med.run()
+            while True:
+                try:
+                    with contextlib.redirect_stdout(io.StringIO()):
+                        self.med.run()
+                    break
+                except ResumeNow:
+                    self._roundtrip()
         except Pause:
             pass
         except EndOfRun:
